@@ -657,6 +657,21 @@ impl Sut {
         }
     }
 
+    /// Two HTTP requests in flight at once on the one in-process service (HTTP entry only).
+    pub fn send_http_pair(&mut self, a: &HttpReq, b: &HttpReq) -> (Result<RawHttp, String>, Result<RawHttp, String>) {
+        match &self.front {
+            Front::Http(app) => match catch_unwind(AssertUnwindSafe(|| app.send_pair(a, b))) {
+                Ok(r) => r,
+                Err(e) => {
+                    let m = panic_msg(e);
+                    self.front = build_front(self.spec, self.cfg, &self.allow, &self.storage, &self.probe);
+                    (Err(format!("PANIC: {m}")), Err(format!("PANIC: {m}")))
+                }
+            },
+            Front::Lib(_) => (Err("not an HTTP sut".into()), Err("not an HTTP sut".into())),
+        }
+    }
+
     /// Environment step "time passes": rewrite the stored snapshot's timestamp so that it is
     /// `days` whole days old, keeping version, bytes and counter.
     pub fn age_snapshot(&mut self, c: Uuid, days: i64) -> Result<(), String> {
